@@ -1,6 +1,7 @@
 // C19: operand rendering, user-defined operand types and the typed front end of the relation sweep
 // (shared by C19.cc, C19_types1.cc, C19_types2.cc).
 #pragma once
+#include <chrono>
 #include <complex>
 #include <limits>
 #include <memory>
@@ -54,6 +55,15 @@ inline std::string sv(const T& v) {
     return vf::fmt("&arr[%d]", (int)((const int*)v - g_arr));
   } else return "?";
 }
+// 128-bit integers (std::to_string / std::is_integral do not cover them under -std=c++20): hexadecimal
+inline std::string sv(const unsigned __int128& v) { return vf::fmt("u128(0x%llX:%016llX)", (unsigned long long)(v >> 64), (unsigned long long)v); }
+inline std::string sv(const __int128& v) { return vf::fmt("i128(0x%llX:%016llX)", (unsigned long long)((unsigned __int128)v >> 64), (unsigned long long)v); }
+#ifdef __SIZEOF_FLOAT128__
+inline std::string sv(const __float128& v) { return vf::fmt("%Lgq", (long double)v); }
+#endif
+inline std::string sv(const std::chrono::milliseconds& d) { return vf::fmt("%lldms", (long long)d.count()); }
+inline std::string sv(const std::chrono::seconds& d) { return vf::fmt("%llds", (long long)d.count()); }
+inline std::string sv(const std::error_code& e) { return vf::fmt("error_code(%d)", e.value()); }
 inline std::string sv(const std::vector<int>& v) {
   std::string o = "{";
   for (size_t i = 0; i < v.size(); i++) o += (i ? "," : "") + std::to_string(v[i]);
